@@ -273,6 +273,15 @@ impl Family for DataEv {
         v /= 3;
         if v % 2 == 1 {
             nd.attrs = vec![("n".into(), format!("{}", idx)), ("empty".into(), "".into())];
+            // in these variants the unique data has the shape of an already encoded
+            // execute-response (field 1, length, payload): data is opaque bytes, wrapped like any other
+            if let Some(d) = nd.data.as_mut() {
+                if !d.is_empty() {
+                    let mut enc = vec![0x0a, d.len() as u8];
+                    enc.extend_from_slice(d);
+                    *d = enc;
+                }
+            }
         }
         v /= 2;
         if v % 2 == 1 {
